@@ -11,6 +11,14 @@ forecast after the pass, which is part of the result), the body appends `catalog
 `get_quantiles(event_counts, obs_count)` (opaque here; py2lean ties `stats.get_quantiles` to `Ecdf.getQuantiles`) and the
 result constructor with its nine keyword arguments (opaque; the two string literals are in the theorem).
 
+`SrcSM.catalog_spatial_test` (round 4f): `spatial_test` with `verbose=False`. `forecast.get_expected_rates()` is an opaque
+method that changes the forecast (`gerOfGenerated`: the generated `get_expected_rates` fits), `enumerate(forecast)` one pass,
+the gridded-forecast methods, the counting methods of the catalogs, `_compute_likelihood` (second component may be nan or
+−inf: `Option (ELL α)`) and `get_quantiles` opaque. `catalog_spatial_test_eq_model`: for whatever these answer, the result is
+built from `spatialOut` — the −inf re-computation on the cells with non-zero rate (`undersampled`), the removal of nan
+entries, `not-valid` with the sentinel quantile for `n_obs == 0` or a nan statistic. `spatialOut_eq_spatialTest`: with the
+hand model's `computeLikelihood`, rates and counts these are the fields of `CatEvals.spatialTest`.
+
 `catalog_number_test_eq_model`: for every pass result the distribution handed to `get_quantiles` and to the constructor is
 the list of the catalogs' event counts in pass order, the observed statistic is the observed catalog's count — the fields
 of `CatEvals.numberTest` (`numberTest_fields`: with `Cat = Grid`, `event_count = eventCount`).
@@ -48,5 +56,494 @@ theorem catalog_number_test_eq_model {Qv Result ObsRepr FName MinMw ObsName Fore
 theorem numberTest_fields (sims : List CatEvals.Grid) (obs : CatEvals.Grid) :
     (CatEvals.numberTest sims obs).distribution = sims.map CatEvals.eventCount ∧
     (CatEvals.numberTest sims obs).observed = CatEvals.eventCount obs := ⟨rfl, rfl⟩
+
+/-! ## spatial_test -/
+section Spatial
+variable {α : Type} [RealOps α]
+
+/-- one catalog after the other: `catalog.spatial_counts()` (may raise), the normalised likelihood appended -/
+theorem forLoop_append_stat {Cat : Type} (sc : Cat → M (List Nat)) (f : List Nat → Option (ELL α)) :
+    ∀ (ys : List Cat) (gs : List (List Nat)) (k : Nat) (acc : List (Option (ELL α))),
+      ys.map sc = gs.map Except.ok →
+      PySM.forLoop (σ := List (Option (ELL α)))
+        (fun s (x : Nat × Cat) => Except.bind (sc x.2) fun g => Except.ok (Ctl.next (PySM.append s (f g))))
+        (PySM.enumerateFrom k ys) acc = Except.ok (acc ++ gs.map f)
+  | [], [], k, acc, _ => by simp [PySM.enumerateFrom, PySM.forLoop]
+  | [], _ :: _, _, _, h => by simp at h
+  | _ :: _, [], _, _, h => by simp at h
+  | y :: ys, g :: gs, k, acc, h => by
+    simp only [List.map_cons, List.cons.injEq] at h
+    simp only [PySM.enumerateFrom, PySM.forLoop, h.1, bind_ok'', PySM.append]
+    have := forLoop_append_stat sc f ys gs (k + 1) (acc ++ [f g]) h.2
+    simp only [PySM.append] at this
+    rw [this]; simp
+
+theorem bind_ite_ok {ε β γ : Type} (c : Prop) [Decidable c] (a b : β) (f : β → Except ε γ) :
+    Except.bind (if c then Except.ok a else Except.ok b) f = if c then f a else f b := by
+  split <;> rfl
+
+theorem maskSel_length_eq {β : Type} : ∀ (a : List β) (m : List Bool), a.length = m.length →
+    PySM.maskSelect a m = Except.ok (PySM.maskSel a m) := by
+  intro a m h; simp [PySM.maskSelect, h]
+
+/-- the fields `spatial_test` computes after the pass, for an arbitrary `_compute_likelihood` / `get_quantiles` -/
+structure SpatialOut (α Qv : Type) where
+  dist : List (Option (ELL α))
+  observed : Option (ELL α)
+  quantile : Qv × Qv
+  status : String
+
+def spatialOut {Qv : Type} (cl : List Nat → List α → α → Nat → ELL α × Option (ELL α))
+    (getq : List (Option (ELL α)) → Option (ELL α) → Qv × Qv) (qint : Int → Qv)
+    (rates : List α) (ecc : α) (gcats : List (List Nat)) (gObs : List Nat) : SpatialOut α Qv :=
+  let nObs := gObs.sum
+  let dist0 := gcats.map (fun g => (cl g rates ecc nObs).2)
+  let first := (cl gObs rates ecc nObs).2
+  let keep := rates.map (fun x => !(PySM.isZeroR x))
+  let om : Option (ELL α) × String :=
+    if PySM.isNegInf first then ((cl (PySM.maskSel gObs keep) (PySM.maskSel rates keep) ecc nObs).2, "undersampled")
+    else (first, "normal")
+  let dist := if PySM.anyNan dist0 then PySM.maskSel dist0 (dist0.map (fun x => !(PySM.isNan x))) else dist0
+  if decide (nObs = 0) || PySM.isNan om.1 then ⟨dist, om.1, (qint (-1), qint (-1)), "not-valid"⟩
+  else ⟨dist, om.1, getq dist om.1, om.2⟩
+
+theorem catalog_spatial_test_eq_model {Qv Result MinMw ObsRepr FName ObsName Forecast Obs Cat Region GF : Type}
+    (cl : List Nat → List α → α → Nat → ELL α × Option (ELL α))
+    (getq : List (Option (ELL α)) → Option (ELL α) → Qv × Qv)
+    (mk : List (Option (ELL α)) → String → Option (ELL α) → Qv × Qv → String → MinMw → ObsRepr → FName → ObsName → Result)
+    (ger : Forecast → M (GF × Forecast)) (gsum : GF → α) (gsc : GF → List α) (osc : Obs → M (List Nat))
+    (csc : Cat → M (List Nat)) (qint : Int → Qv) (iter : Forecast → M (List Cat × Forecast))
+    (fregion : Forecast → Option Region) (fer : Forecast → Option GF) (fname : Forecast → FName)
+    (fmin : Forecast → MinMw) (ocnt : Obs → Nat) (oname : Obs → ObsName) (ostr : Obs → ObsRepr)
+    (fc : Forecast) (obs : Obs)
+    -- what the opaque objects answer
+    (fc1 : Forecast) (gf : GF) (gObs : List Nat) (ys : List Cat) (gcats : List (List Nat)) (fc2 : Forecast)
+    (hreg : (fregion fc).isNone = false)
+    (hfc1 : (match fer fc with | some _ => Except.ok fc | none => (ger fc).map (·.2)) = Except.ok fc1)
+    (hgf : fer fc1 = some gf) (hobs : osc obs = Except.ok gObs) (hp : iter fc1 = Except.ok (ys, fc2))
+    (hcats : ys.map csc = gcats.map Except.ok) (hlen : (gsc gf).length = gObs.length) :
+    SrcSM.catalog_spatial_test cl getq mk ger gsum gsc osc csc qint iter fregion fer fname fmin ocnt oname ostr fc obs
+      = (let o := spatialOut cl getq qint (gsc gf) (gsum gf) gcats gObs
+         Except.ok (mk o.dist "S-Test" o.observed o.quantile o.status (fmin fc2) (ostr obs) (fname fc2) (oname obs), fc2)) := by
+  unfold SrcSM.catalog_spatial_test
+  have hk : ((gsc gf).map (fun x => !(PySM.isZeroR x))).length = gObs.length := by simp [hlen]
+  have hk2 : (gsc gf).length = ((gsc gf).map (fun x => !(PySM.isZeroR x))).length := by simp
+  have hloop := forLoop_append_stat csc (fun g => (cl g (gsc gf) (gsum gf) gObs.sum).2) ys gcats 0 [] hcats
+  simp only [PySM.append, List.nil_append] at hloop
+  cases hf : fer fc with
+  | some g =>
+    have e1 : fc1 = fc := by simp only [hf] at hfc1; cases hfc1; rfl
+    subst e1
+    have e2 : gf = g := by rw [hf] at hgf; exact (Option.some.inj hgf).symm
+    subst e2
+    simp only [hreg, hf, Option.isNone_some, Bool.false_eq_true, if_false, ite_self, bind_ok'']
+    simp only [PySM.getObj, bind_ok'', hobs, hp, PySM.enumerate]
+    simp only [PySM.append]
+    rw [hloop]
+    simp only [bind_ok'', maskSel_length_eq _ _ hk.symm, maskSel_length_eq _ _ hk2]
+    simp only [spatialOut]
+    simp only [bind_ite_ok, bind_ok'', PySM.maskSelect, List.length_map, if_true, List.map_map, Function.comp_def]
+    by_cases hn : PySM.isNegInf (cl gObs (gsc gf) (gsum gf) gObs.sum).2 = true <;>
+    by_cases ha : PySM.anyNan (gcats.map (fun g => (cl g (gsc gf) (gsum gf) gObs.sum).2)) = true <;>
+    simp only [hn, ha, if_true, if_false, Bool.false_eq_true] <;>
+    (split <;> rename_i hc <;> simp only [hc, if_true, if_false, Bool.false_eq_true])
+  | none =>
+    have hg : ∃ g', ger fc = Except.ok (g', fc1) := by
+      simp only [hf] at hfc1
+      cases hg : ger fc with
+      | error e => simp [hg, Except.map] at hfc1
+      | ok r => simp only [hg, Except.map, Except.ok.injEq] at hfc1; exact ⟨r.1, by rw [← hfc1]⟩
+    obtain ⟨g', hg'⟩ := hg
+    simp only [hreg, hf, Option.isNone_none, if_true, Bool.false_eq_true, if_false, ite_self, hg', bind_ok'']
+    simp only [hgf, PySM.getObj, bind_ok'', hobs, hp, PySM.enumerate]
+    simp only [PySM.append]
+    rw [hloop]
+    simp only [bind_ok'', maskSel_length_eq _ _ hk.symm, maskSel_length_eq _ _ hk2]
+    simp only [spatialOut]
+    simp only [bind_ite_ok, bind_ok'', PySM.maskSelect, List.length_map, if_true, List.map_map, Function.comp_def]
+    by_cases hn : PySM.isNegInf (cl gObs (gsc gf) (gsum gf) gObs.sum).2 = true <;>
+    by_cases ha : PySM.anyNan (gcats.map (fun g => (cl g (gsc gf) (gsum gf) gObs.sum).2)) = true <;>
+    simp only [hn, ha, if_true, if_false, Bool.false_eq_true] <;>
+    (split <;> rename_i hc <;> simp only [hc, if_true, if_false, Bool.false_eq_true])
+
+/-- the opaque method `forecast.get_expected_rates()` of `catalog_spatial_test_eq_model`, instantiated with the GENERATED
+    `SrcSM.get_expected_rates` (SourceSM/C13R.lean) on the forecast's state record: this term type-checks, i.e. the theorem
+    applies with `Forecast` = that record, `fer` = its `expected_rates` field and `iter` = the same pass `iterSelf` -/
+def gerOfGenerated {T GF Region Name Rest Cat : Type}
+    (mkGF : T → T → List Rat → Region → Option (List Rat) → Name → GF) (smc : Cat → M (List Nat))
+    (setRegion : Cat → Region → Cat)
+    (iterSelf : (Region × Option GF × Option Int × T × T × Name × Rest) →
+      M (List Cat × (Region × Option GF × Option Int × T × T × Name × Rest)))
+    (mags : Region → Option (List Rat)) (empty : List Nat)
+    (fc : Region × Option GF × Option Int × T × T × Name × Rest) :
+    M (GF × (Region × Option GF × Option Int × T × T × Name × Rest)) :=
+  Except.bind (SrcSM.get_expected_rates mkGF smc setRegion iterSelf mags empty fc) fun r =>
+    match r.1 with
+    | some g => Except.ok (g, r.2)
+    | none => Except.error .attributeError
+
+/-! ### `spatialOut` with the model's `_compute_likelihood` and rates is `CatEvals.spatialTest` -/
+open CatEvals in
+theorem maskSel_eq_maskBy {β : Type} : ∀ (a : List β) (m : List Bool), PySM.maskSel a m = maskBy m a
+  | [], [] => by simp [PySM.maskSel, maskBy]
+  | [], _ :: _ => by simp [PySM.maskSel, maskBy]
+  | _ :: _, [] => by simp [PySM.maskSel, maskBy]
+  | x :: xs, b :: bs => by
+    have ih := maskSel_eq_maskBy xs bs
+    cases b <;> simp [PySM.maskSel, maskBy, ih] <;> simp [maskBy] at ih ⊢ <;> exact ih
+
+theorem maskSel_isSome {β : Type} : ∀ (d : List (Option β)),
+    PySM.maskSel d (d.map Option.isSome) = (d.filterMap id).map some
+  | [] => by simp [PySM.maskSel]
+  | none :: d => by simp [PySM.maskSel, maskSel_isSome d]
+  | some x :: d => by simp [PySM.maskSel, maskSel_isSome d]
+
+theorem maskSel_notNan (d : List (Option (ELL α))) :
+    PySM.maskSel d (d.map (fun x => !(PySM.isNan x))) = (d.filterMap id).map some := by
+  have : (fun (x : Option (ELL α)) => !(PySM.isNan x)) = Option.isSome := by
+    funext x; cases x <;> rfl
+  rw [this]; exact maskSel_isSome d
+
+theorem noNan_eq : ∀ (d : List (Option (ELL α))), PySM.anyNan d = false → d = (d.filterMap id).map some
+  | [], _ => by simp
+  | none :: d, h => by simp [PySM.anyNan, PySM.isNan] at h
+  | some x :: d, h => by
+    have h' : PySM.anyNan d = false := by simpa [PySM.anyNan, PySM.isNan] using h
+    simp [← noNan_eq d h']
+
+def statusStr : CatEvals.Status → String
+  | .normal => "normal" | .undersampled => "undersampled" | .notValid => "not-valid"
+
+open CatEvals in
+/-- the fields of `spatialOut`, computed with the hand model's `_compute_likelihood`, rates and counts, are the fields of
+    `CatEvals.spatialTest` (`qp` writes a `Quant` as the pair the code stores; `get_quantiles` on a nan-free sample and a
+    non-nan value is `quantiles`) -/
+theorem spatialOut_eq_spatialTest {Qv : Type} (C K : Nat) (sims : List Grid) (obs : Grid) (qp : Quant → Qv × Qv)
+    (qint : Int → Qv) (hq : qp .sentinel = (qint (-1), qint (-1))) :
+    let m : List (List α) := meanRates C K sims
+    let R : Result α := spatialTest C K sims obs
+    let o := spatialOut computeLikelihood
+      (fun d v => match v with | some x => qp (quantiles (d.filterMap id) x) | none => (qint (-1), qint (-1))) qint
+      (spatialRates m) (totalRate m) (sims.map (spatialCounts C)) (spatialCounts C obs)
+    o.dist = R.distribution.map some ∧ o.observed = R.observed ∧ o.quantile = qp R.quantile
+      ∧ o.status = statusStr R.status := by
+  intro m R o
+  have hdist : (if PySM.anyNan (List.map (fun g => (computeLikelihood g (spatialRates m) (totalRate m) (spatialCounts C obs).sum).2)
+        (sims.map (spatialCounts C))) = true
+      then PySM.maskSel (List.map (fun g => (computeLikelihood g (spatialRates m) (totalRate m) (spatialCounts C obs).sum).2)
+            (sims.map (spatialCounts C)))
+          ((List.map (fun g => (computeLikelihood g (spatialRates m) (totalRate m) (spatialCounts C obs).sum).2)
+            (sims.map (spatialCounts C))).map (fun x => !(PySM.isNan x)))
+      else List.map (fun g => (computeLikelihood g (spatialRates m) (totalRate m) (spatialCounts C obs).sum).2)
+            (sims.map (spatialCounts C)))
+      = ((sims.map fun g => (computeLikelihood (spatialCounts C g) (spatialRates m) (totalRate m) (spatialCounts C obs).sum).2).filterMap id).map some := by
+    have key : List.map (fun g => (computeLikelihood g (spatialRates m) (totalRate m) (spatialCounts C obs).sum).2)
+          (sims.map (spatialCounts C))
+        = sims.map fun g => (computeLikelihood (spatialCounts C g) (spatialRates m) (totalRate m) (spatialCounts C obs).sum).2 := by
+      simp [List.map_map, Function.comp_def]
+    rw [key]
+    split
+    · exact maskSel_notNan (α := α) _
+    · rename_i h; exact noNan_eq (α := α) _ (by simpa using h)
+  simp only [o, R, spatialOut, spatialTest, hdist]
+  cases hfirst : (computeLikelihood (spatialCounts C obs) (spatialRates m) (totalRate m) (spatialCounts C obs).sum).2 with
+  | none =>
+    by_cases h0 : (spatialCounts C obs).sum = 0 <;> simp [PySM.isNegInf, PySM.isNan, h0, hq, statusStr, m]
+  | some v =>
+    cases v with
+    | negInf =>
+      simp only [PySM.isNegInf, if_true, maskSel_eq_maskBy, goodMask, CatEvals.isZero, PySM.isZeroR]
+      by_cases h0 : (spatialCounts C obs).sum = 0
+      · simp [h0, hq, statusStr, m, PySM.isNan]
+      · cases hsec : (computeLikelihood (maskBy (List.map (fun x => !(RealOps.le x RealOps.zero && RealOps.le RealOps.zero x)) (spatialRates m)) (spatialCounts C obs))
+            (maskBy (List.map (fun x => !(RealOps.le x RealOps.zero && RealOps.le RealOps.zero x)) (spatialRates m)) (spatialRates m)) (totalRate m) (spatialCounts C obs).sum).2 <;>
+          simp [h0, hq, statusStr, m, PySM.isNan, hsec, List.filterMap_map, Function.comp_def]
+    | fin x =>
+      by_cases h0 : (spatialCounts C obs).sum = 0 <;>
+        simp [PySM.isNegInf, PySM.isNan, h0, hq, statusStr, m, List.filterMap_map, Function.comp_def]
+
+/-! ### `pseudolikelihood_test` (verbose=False) -/
+
+/-- the last part of `pseudolikelihood_test`: nan entries removed, `not-valid` + sentinel or the quantiles -/
+def plFinish {Qv : Type} (getq : List (Option (ELL α)) → Option (ELL α) → Qv × Qv) (qint : Int → Qv)
+    (nObs : Nat) (dist0 : List (Option (ELL α))) (v : Option (ELL α)) (st : String) : SpatialOut α Qv :=
+  let dist := if PySM.anyNan dist0 then PySM.maskSel dist0 (dist0.map (fun x => !(PySM.isNan x))) else dist0
+  if decide (nObs = 0) || PySM.isNan v then ⟨dist, v, (qint (-1), qint (-1)), "not-valid"⟩
+  else ⟨dist, v, getq dist v, st⟩
+
+/-- what `pseudolikelihood_test` computes after the pass (observed catalog not empty), for an arbitrary
+    `_compute_likelihood` (first component used; nan allowed) / `get_quantiles`; `none` = the function returns `None` -/
+def plOut {Qv : Type} (cl : List Nat → List α → α → Nat → Option (ELL α) × Option (ELL α))
+    (getq : List (Option (ELL α)) → Option (ELL α) → Qv × Qv) (qint : Int → Qv)
+    (rates : List α) (ecc : α) (gcats : List (List Nat)) (gObs : List Nat) : Option (SpatialOut α Qv) :=
+  let nObs := gObs.sum
+  let dist0 := gcats.map (fun g => (cl g rates ecc nObs).1)
+  let first := (cl gObs rates ecc nObs).1
+  let keep := rates.map (fun x => !(PySM.isZeroR x))
+  if PySM.isNegInf first then
+    if (PySM.maskSel gObs keep).sum = 0 then none
+    else some (plFinish getq qint nObs dist0 (cl (PySM.maskSel gObs keep) (PySM.maskSel rates keep) ecc nObs).1 "undersampled")
+  else some (plFinish getq qint nObs dist0 first "normal")
+
+theorem catalog_pseudolikelihood_test_eq_model {Qv Result MinMw ObsRepr FName ObsName Forecast Obs Cat Region GF : Type}
+    (cl : List Nat → List α → α → Nat → Option (ELL α) × Option (ELL α))
+    (getq : List (Option (ELL α)) → Option (ELL α) → Qv × Qv)
+    (mk : List (Option (ELL α)) → String → Option (ELL α) → Qv × Qv → String → MinMw → ObsRepr → FName → ObsName → Result)
+    (ger : Forecast → M (GF × Forecast)) (gsum : GF → α) (gsc : GF → List α) (osc : Obs → M (List Nat))
+    (csc : Cat → M (List Nat)) (qint : Int → Qv) (iter : Forecast → M (List Cat × Forecast))
+    (fregion : Forecast → Option Region) (fer : Forecast → Option GF) (fname : Forecast → FName)
+    (fmin : Forecast → MinMw) (ocnt : Obs → Nat) (oname : Obs → ObsName) (ostr : Obs → ObsRepr)
+    (fc : Forecast) (obs : Obs) (hreg : (fregion fc).isNone = false) :
+    -- an empty observed catalog: `None`, the forecast untouched
+    (ocnt obs = 0 →
+      SrcSM.catalog_pseudolikelihood_test cl getq mk ger gsum gsc osc csc qint iter fregion fer fname fmin ocnt oname ostr
+        fc obs = Except.ok (none, fc)) ∧
+    -- otherwise, for what the opaque objects answer
+    (ocnt obs ≠ 0 →
+      ∀ (fc1 : Forecast) (gf : GF) (gObs : List Nat) (ys : List Cat) (gcats : List (List Nat)) (fc2 : Forecast),
+      (match fer fc with | some _ => Except.ok fc | none => (ger fc).map (·.2)) = Except.ok fc1 →
+      fer fc1 = some gf → osc obs = Except.ok gObs → iter fc1 = Except.ok (ys, fc2) →
+      ys.map csc = gcats.map Except.ok → (gsc gf).length = gObs.length →
+      SrcSM.catalog_pseudolikelihood_test cl getq mk ger gsum gsc osc csc qint iter fregion fer fname fmin ocnt oname ostr
+        fc obs
+        = Except.ok ((plOut cl getq qint (gsc gf) (gsum gf) gcats gObs).map (fun o =>
+            mk o.dist "PL-Test" o.observed o.quantile o.status (fmin fc2) (ostr obs) (fname fc2) (oname obs)), fc2)) := by
+  refine ⟨fun h0 => ?_, fun hne fc1 gf gObs ys gcats fc2 hfc1 hgf hobs hp hcats hlen => ?_⟩
+  · unfold SrcSM.catalog_pseudolikelihood_test
+    simp only [hreg, Bool.false_eq_true, if_false, bind_ok'', h0, decide_true, if_true]
+  unfold SrcSM.catalog_pseudolikelihood_test
+  have hk : ((gsc gf).map (fun x => !(PySM.isZeroR x))).length = gObs.length := by simp [hlen]
+  have hk2 : (gsc gf).length = ((gsc gf).map (fun x => !(PySM.isZeroR x))).length := by simp
+  have hloop := forLoop_append_stat csc (fun g => (cl g (gsc gf) (gsum gf) gObs.sum).1) ys gcats 0 [] hcats
+  simp only [PySM.append, List.nil_append] at hloop
+  have hd : decide (ocnt obs = 0) = false := by simp [hne]
+  cases hf : fer fc with
+  | some g =>
+    have e1 : fc1 = fc := by simp only [hf] at hfc1; cases hfc1; rfl
+    subst e1
+    have e2 : gf = g := by rw [hf] at hgf; exact (Option.some.inj hgf).symm
+    subst e2
+    simp only [hreg, hd, hf, Option.isNone_some, Bool.false_eq_true, if_false, ite_self, bind_ok'']
+    simp only [PySM.getObj, bind_ok'', hobs, hp, PySM.enumerate]
+    simp only [PySM.append]
+    rw [hloop]
+    simp only [bind_ok'', maskSel_length_eq _ _ hk.symm, maskSel_length_eq _ _ hk2]
+    simp only [plOut, plFinish]
+    simp only [bind_ite_ok, bind_ok'', PySM.maskSelect, List.length_map, if_true, List.map_map, Function.comp_def]
+    by_cases hn : PySM.isNegInf (cl gObs (gsc gf) (gsum gf) gObs.sum).1 = true <;>
+    by_cases ha : PySM.anyNan (gcats.map (fun g => (cl g (gsc gf) (gsum gf) gObs.sum).1)) = true <;>
+    simp only [hn, ha, if_true, if_false, Bool.false_eq_true, decide_eq_true_eq] <;>
+    (first
+      | rfl
+      | (split <;> rename_i hc <;> simp only [hc, if_true, if_false, Bool.false_eq_true, Option.map] <;>
+          (first
+            | rfl
+            | (split <;> rename_i hc2 <;> simp only [hc2, if_true, if_false, Bool.false_eq_true, Option.map]))))
+  | none =>
+    have hg : ∃ g', ger fc = Except.ok (g', fc1) := by
+      simp only [hf] at hfc1
+      cases hg : ger fc with
+      | error e => simp [hg, Except.map] at hfc1
+      | ok r => simp only [hg, Except.map, Except.ok.injEq] at hfc1; exact ⟨r.1, by rw [← hfc1]⟩
+    obtain ⟨g', hg'⟩ := hg
+    simp only [hreg, hd, hf, Option.isNone_none, if_true, Bool.false_eq_true, if_false, ite_self, hg', bind_ok'']
+    simp only [hgf, PySM.getObj, bind_ok'', hobs, hp, PySM.enumerate]
+    simp only [PySM.append]
+    rw [hloop]
+    simp only [bind_ok'', maskSel_length_eq _ _ hk.symm, maskSel_length_eq _ _ hk2]
+    simp only [plOut, plFinish]
+    simp only [bind_ite_ok, bind_ok'', PySM.maskSelect, List.length_map, if_true, List.map_map, Function.comp_def]
+    by_cases hn : PySM.isNegInf (cl gObs (gsc gf) (gsum gf) gObs.sum).1 = true <;>
+    by_cases ha : PySM.anyNan (gcats.map (fun g => (cl g (gsc gf) (gsum gf) gObs.sum).1)) = true <;>
+    simp only [hn, ha, if_true, if_false, Bool.false_eq_true, decide_eq_true_eq] <;>
+    (first
+      | rfl
+      | (split <;> rename_i hc <;> simp only [hc, if_true, if_false, Bool.false_eq_true, Option.map] <;>
+          (first
+            | rfl
+            | (split <;> rename_i hc2 <;> simp only [hc2, if_true, if_false, Bool.false_eq_true, Option.map]))))
+
+theorem anyNan_map_some {β : Type} (f : β → ELL α) (l : List β) :
+    PySM.anyNan (l.map fun g => some (f g)) = false := by
+  induction l with
+  | nil => rfl
+  | cons x xs ih => simpa [PySM.anyNan, PySM.isNan] using ih
+
+open CatEvals in
+/-- `plOut` with the hand model's `_compute_likelihood` (first component: never nan), rates and counts is
+    `CatEvals.pseudolikelihoodTest` for an observed catalog with events in the region (`Proofs/CatalogEvals.lean`
+    `spatialCounts_sum_eq`: the sum of the spatial counts is the event count when the matrix has at most `C` rows) -/
+theorem plOut_eq_pseudolikelihoodTest {Qv : Type} (C K : Nat) (sims : List Grid) (obs : Grid) (qp : Quant → Qv × Qv)
+    (qint : Int → Qv) (hev : eventCount obs ≠ 0) (hs : (spatialCounts C obs).sum ≠ 0) :
+    let m : List (List α) := meanRates C K sims
+    (plOut (fun g r e n => (some (computeLikelihood g r e n).1, (computeLikelihood g r e n).2))
+      (fun d v => match v with | some x => qp (quantiles (d.filterMap id) x) | none => (qint (-1), qint (-1))) qint
+      (spatialRates m) (totalRate m) (sims.map (spatialCounts C)) (spatialCounts C obs)).map
+        (fun o => (o.dist, o.observed, o.quantile, o.status))
+      = (pseudolikelihoodTest C K sims obs).map
+        (fun (R : Result α) => (R.distribution.map some, R.observed, qp R.quantile, statusStr R.status)) := by
+  intro m
+  have hfm : ∀ (l : List (ELL α)), (l.map some).filterMap id = l := by
+    intro l; induction l with
+    | nil => rfl
+    | cons x xs ih => simp
+  have hmask : ∀ (r : List α), List.map (fun x => !(PySM.isZeroR x)) r = goodMask r := fun _ => rfl
+  simp only [m, plOut, plFinish, pseudolikelihoodTest, hev, if_false, hmask, maskSel_eq_maskBy]
+  generalize spatialRates (meanRates (α := α) C K sims) = rates
+  generalize totalRate (meanRates (α := α) C K sims) = ecc
+  generalize goodMask rates = keep
+  generalize hgo : spatialCounts C obs = gObs at hs
+  have key : List.map (fun g => some (computeLikelihood g rates ecc gObs.sum).1) (sims.map (spatialCounts C))
+      = (sims.map fun g => (computeLikelihood (spatialCounts C g) rates ecc gObs.sum).1).map some := by
+    simp [List.map_map, Function.comp_def]
+  have hnn : PySM.anyNan (List.map (fun g => some (computeLikelihood g rates ecc gObs.sum).1)
+        (sims.map (spatialCounts C))) = false := anyNan_map_some _ _
+  simp only [hnn, Bool.false_eq_true, if_false]
+  rw [key]
+  generalize (sims.map fun g => (computeLikelihood (spatialCounts C g) rates ecc gObs.sum).1) = dist
+  have hd : decide (gObs.sum = 0) = false := by simp [hs]
+  cases hfirst : (computeLikelihood gObs rates ecc gObs.sum).1 with
+  | negInf =>
+    simp only [PySM.isNegInf, if_true]
+    split
+    · rfl
+    · simp only [Option.map_some, hd, PySM.isNan, Option.isNone_some, Bool.or_self, Bool.false_eq_true, if_false, hfm,
+        statusStr]
+  | fin x =>
+    simp only [PySM.isNegInf, Bool.false_eq_true, if_false, Option.map_some, hd, PySM.isNan, Option.isNone_some,
+      Bool.or_self, hfm, statusStr]
+
+/-! ### `magnitude_test` (verbose=False) -/
+
+/-- one catalog after the other: `catalog.magnitude_counts()` (may raise), `continue` or one value appended -/
+theorem forLoop_append_opt {Cat β : Type} (sc : Cat → M (List Nat)) (f : List Nat → Option β)
+    (B : List β → Nat × Cat → M (Ctl (List β)))
+    (hB : ∀ s x g, sc x.2 = Except.ok g → B s x = Except.ok (Ctl.next (s ++ (f g).toList))) :
+    ∀ (ys : List Cat) (gs : List (List Nat)) (k : Nat) (acc : List β),
+      ys.map sc = gs.map Except.ok →
+      PySM.forLoop (σ := List β) B (PySM.enumerateFrom k ys) acc = Except.ok (acc ++ gs.filterMap f)
+  | [], [], k, acc, _ => by simp [PySM.enumerateFrom, PySM.forLoop]
+  | [], _ :: _, _, _, h => by simp at h
+  | _ :: _, [], _, _, h => by simp at h
+  | y :: ys, g :: gs, k, acc, h => by
+    simp only [List.map_cons, List.cons.injEq] at h
+    simp only [PySM.enumerateFrom, PySM.forLoop, hB acc (k, y) g h.1]
+    rw [forLoop_append_opt sc f B hB ys gs (k + 1) _ h.2]
+    cases hf : f g <;> simp [List.filterMap_cons, hf]
+
+structure MagOut (α Qv : Type) where
+  dist : List α
+  observed : α
+  quantile : Qv × Qv
+
+/-- the statistic of one catalog; `none` = skipped (`continue`) -/
+def magStat (csd : List α → List α → α) (nObs : Nat) (l10su : List α) (mc : List Nat) : Option α :=
+  if mc.sum = 0 then none
+  else some (csd (List.map PySM.log10 (List.map (fun x => RealOps.add x RealOps.one)
+    (mc.map fun c => RealOps.mul (RealOps.ofNat c) (RealOps.div (RealOps.ofNat nObs) (RealOps.ofNat mc.sum))))) l10su)
+
+/-- what `magnitude_test` computes after the pass (observed catalog not empty), for an arbitrary `cumulative_square_diff` /
+    `get_quantiles` -/
+def magOut {Qv : Type} (csd : List α → List α → α) (getq : List α → α → Qv × Qv)
+    (union : List α) (mcs : List (List Nat)) (hObs : List Nat) : MagOut α Qv :=
+  let nObs := hObs.sum
+  let scaled := union.map fun u => RealOps.mul u (RealOps.div (RealOps.ofNat nObs) (Py.rsum union))
+  let l10su := List.map PySM.log10 (scaled.map fun x => RealOps.add x RealOps.one)
+  let dist := mcs.filterMap (magStat csd nObs l10su)
+  let obsD := csd ((hObs.map (· + 1)).map fun n => PySM.log10 (RealOps.ofNat n : α)) l10su
+  ⟨dist, obsD, getq dist obsD⟩
+
+theorem catalog_magnitude_test_eq_model {Qv Result MinMw ObsRepr ObsName FName Forecast Obs Cat Region Mags GF : Type}
+    (getq : List α → α → Qv × Qv) (csd : List α → List α → α)
+    (mk : List α → String → Option α → Option Qv × Option Qv → String → MinMw → ObsRepr → ObsName → FName → Result)
+    (ger : Forecast → M (GF × Forecast)) (gmc : GF → List α) (omc : Obs → M (List Nat)) (cmc : Cat → M (List Nat))
+    (iter : Forecast → M (List Cat × Forecast)) (fregion : Forecast → Option Region) (fer : Forecast → Option GF)
+    (fname : Forecast → FName) (fmin : Forecast → MinMw) (ocnt : Obs → Nat) (oname : Obs → ObsName) (ostr : Obs → ObsRepr)
+    (rmags : Region → Option Mags) (fc : Forecast) (obs : Obs)
+    (reg : Region) (hreg : fregion fc = some reg) (hmags : (rmags reg).isNone = false) :
+    -- an empty observed catalog: the `not-valid` result with nothing in it, the forecast untouched
+    (ocnt obs = 0 →
+      SrcSM.catalog_magnitude_test getq csd mk ger gmc omc cmc iter fregion fer fname fmin ocnt oname ostr rmags fc obs
+        = Except.ok (mk [] "M-Test" none (none, none) "not-valid" (fmin fc) (ostr obs) (oname obs) (fname fc), fc)) ∧
+    -- otherwise, for what the opaque objects answer
+    (ocnt obs ≠ 0 →
+      ∀ (fc1 : Forecast) (gf : GF) (hObs : List Nat) (ys : List Cat) (mcs : List (List Nat)) (fc2 : Forecast),
+      (match fer fc with | some _ => Except.ok fc | none => (ger fc).map (·.2)) = Except.ok fc1 →
+      fer fc1 = some gf → omc obs = Except.ok hObs → iter fc1 = Except.ok (ys, fc2) →
+      ys.map cmc = mcs.map Except.ok →
+      SrcSM.catalog_magnitude_test getq csd mk ger gmc omc cmc iter fregion fer fname fmin ocnt oname ostr rmags fc obs
+        = (let o := magOut csd getq (gmc gf) mcs hObs
+           Except.ok (mk o.dist "M-Test" (some o.observed) (some o.quantile.1, some o.quantile.2) "normal" (fmin fc2)
+             (ostr obs) (oname obs) (fname fc2), fc2))) := by
+  refine ⟨fun h0 => ?_, fun hne fc1 gf hObs ys mcs fc2 hfc1 hgf hobs hp hcats => ?_⟩
+  · unfold SrcSM.catalog_magnitude_test
+    simp only [hreg, PySM.getObj, hmags, Bool.false_eq_true, if_false, bind_ok'', h0, decide_true, if_true]
+  unfold SrcSM.catalog_magnitude_test
+  have hd : decide (ocnt obs = 0) = false := by simp [hne]
+  have hfc : (if (fer fc).isNone then Except.bind (ger fc) fun m => (Except.ok m.2 : M Forecast) else Except.ok fc)
+      = Except.ok fc1 := by
+    cases hf : fer fc with
+    | some g => simp only [hf] at hfc1; cases hfc1; simp
+    | none =>
+      simp only [hf] at hfc1
+      cases hg : ger fc with
+      | error e => simp [hg, Except.map] at hfc1
+      | ok r =>
+        simp only [hg, Except.map, Except.ok.injEq] at hfc1
+        simp [bind_ok'', hfc1]
+  simp only [hreg, PySM.getObj, hmags, Bool.false_eq_true, if_false, bind_ok'', hd]
+  rw [hfc]
+  simp only [bind_ok'', hgf, hobs, hp, PySM.enumerate]
+  rw [forLoop_append_opt cmc (magStat csd hObs.sum
+      (List.map PySM.log10 (List.map (fun x => RealOps.add x RealOps.one)
+        (List.map (fun u => RealOps.mul u (RealOps.div (RealOps.ofNat hObs.sum) (Py.rsum (gmc gf)))) (gmc gf))))) _ ?hB
+      ys mcs 0 [] hcats]
+  case hB =>
+    intro s x g hg
+    simp only [hg, bind_ok'', magStat, PySM.append]
+    by_cases h : g.sum = 0 <;> simp [h]
+  simp only [bind_ok'', List.nil_append, magOut]
+
+open CatEvals in
+/-- `magOut` with the hand model's `cumulative_square_diff`, union histogram and counts is `CatEvals.magnitudeTest` for an
+    observed catalog with events and a forecast with at least one event (`n_union_events ≠ 0`: the division is in the real
+    layer). The model writes the observed histogram as `log10(c·1 + 1)`, the code as `log10(float(c + 1))`: equal under the
+    two laws `x·1 = x` and `float(n + 1) = float(n) + 1` of the real layer (hypotheses; true in ℝ) -/
+theorem magOut_eq_magnitudeTest {Qv : Type} (C K : Nat) (sims : List Grid) (obs : Grid) (qp : Quant → Qv × Qv)
+    (hmul1 : ∀ x : α, RealOps.mul x RealOps.one = x)
+    (hof : ∀ n : Nat, (RealOps.ofNat (n + 1) : α) = RealOps.add (RealOps.ofNat n) RealOps.one)
+    (hev : eventCount obs ≠ 0)
+    (hz : CatEvals.isZero (RealOps.sum (magRates K (meanRates (α := α) C K sims))) = false) :
+    let m : List (List α) := meanRates C K sims
+    let R : Result α := magnitudeTest C K sims obs
+    let o := magOut cumulativeSquareDiff (fun d v => qp (quantiles (d.map ELL.fin) (.fin v)))
+      (magRates K m) (sims.map (magCounts K)) (magCounts K obs)
+    o.dist.map ELL.fin = R.distribution ∧ some (ELL.fin o.observed) = R.observed ∧ o.quantile = qp R.quantile
+      ∧ R.status = .normal := by
+  intro m R o
+  have hlog : ∀ (mc : List Nat) (sc : α),
+      List.map PySM.log10 (List.map (fun x => RealOps.add x RealOps.one) (mc.map fun c => RealOps.mul (RealOps.ofNat c) sc))
+        = logHist mc sc := by
+    intro mc sc; simp only [logHist, List.map_map, Function.comp_def]; rfl
+  have hobsH : ∀ (h : List Nat), (h.map (· + 1)).map (fun n => PySM.log10 (RealOps.ofNat n : α)) = logHist h RealOps.one := by
+    intro h; simp only [logHist, List.map_map, Function.comp_def, hof, hmul1]; rfl
+  have hl10 : ∀ (l : List α), List.map PySM.log10 (l.map fun x => RealOps.add x RealOps.one)
+      = l.map fun x => CatEvals.log10 (RealOps.add x RealOps.one) := by
+    intro l; simp only [List.map_map, Function.comp_def]; rfl
+  have hstat : ∀ (n : Nat) (l : List α) (mc : List Nat),
+      (magStat cumulativeSquareDiff n l mc).map ELL.fin = dStat n l mc := by
+    intro n l mc
+    simp only [magStat, dStat, hlog]
+    by_cases h : mc.sum = 0 <;> simp [h]
+  have hdist : ∀ (n : Nat) (l : List α),
+      ((sims.map (magCounts K)).filterMap (magStat cumulativeSquareDiff n l)).map ELL.fin
+        = sims.filterMap fun g => dStat n l (magCounts K g) := by
+    intro n l
+    rw [List.filterMap_map, List.map_filterMap]
+    congr 1; funext g; simp only [Function.comp_def, ← hstat]
+  simp only [o, R, m, magOut, magnitudeTest, hev, if_false, hz, Bool.false_eq_true, Py.rsum, hl10, hobsH, hdist]
+  exact ⟨trivial, trivial, trivial, trivial⟩
+
+end Spatial
 
 end SrcSM
